@@ -26,6 +26,7 @@ type streamCase struct {
 	Burst   int        `json:"burst"` // > 0: no schedule, every connection sends its whole stream at once, Burst rounds
 	// Defaults: the server keeps its default error callback (OnErrorFunc unset)
 	Defaults bool `json:"defaults"`
+	raw      []byte
 }
 
 type connStep struct {
@@ -154,13 +155,29 @@ type pipeListener struct {
 	ch     chan net.Conn
 	closed chan struct{}
 	once   sync.Once
+	// failed: Accept returns an error nobody asked for (listener failure, E05)
+	failed   chan struct{}
+	failOnce sync.Once
 }
 
 func newPipeListener() *pipeListener {
-	return &pipeListener{ch: make(chan net.Conn, 16), closed: make(chan struct{})}
+	return &pipeListener{ch: make(chan net.Conn, 16), closed: make(chan struct{}), failed: make(chan struct{})}
 }
+
+var errListenerFailed = errors.New("verif: the listener failed")
+
+// fail: the listener breaks although nobody closed it (Accept returns an error from now on)
+func (l *pipeListener) fail() { l.failOnce.Do(func() { close(l.failed) }) }
+
 func (l *pipeListener) Accept() (net.Conn, error) {
 	select {
+	case <-l.failed:
+		return nil, errListenerFailed
+	default:
+	}
+	select {
+	case <-l.failed:
+		return nil, errListenerFailed
 	case c := <-l.ch:
 		return c, nil
 	case <-l.closed:
@@ -183,6 +200,8 @@ func (l *pipeListener) dial2(prepare func(serverSide net.Conn)) (net.Conn, net.C
 	select {
 	case l.ch <- b:
 		return a, b, nil
+	case <-l.failed:
+		return nil, nil, errListenerFailed
 	case <-l.closed:
 		return nil, nil, net.ErrClosed
 	case <-time.After(2 * time.Second):
@@ -286,6 +305,7 @@ func runStreamE2E(c *streamCase) []Ev {
 		}
 	}()
 	seen := 0
+	unsynced := false
 	for _, s := range segments(c) {
 		e := Ev{"ev": "segment", "conn": 1, "bytes": ints(s), "out": []int{}, "close": false, "panic": false, "stuck": false, "traced": []int{}, "tap": false}
 		conn.SetWriteDeadline(time.Now().Add(2 * time.Second))
@@ -295,12 +315,16 @@ func runStreamE2E(c *streamCase) []Ev {
 			break
 		}
 		var res tapResult
-		gone := false
+		gone, gotTap := false, false
 		waitUntil := time.Now().Add(3 * time.Second)
+		if unsynced {
+			waitUntil = time.Now().Add(300 * time.Millisecond)
+		}
 	waitTap:
 		for {
 			select {
 			case res = <-tap.done:
+				gotTap = true
 				break waitTap
 			case <-time.After(2 * time.Millisecond):
 				rmu.Lock()
@@ -312,10 +336,24 @@ func runStreamE2E(c *streamCase) []Ev {
 					break waitTap
 				}
 				if time.Now().After(waitUntil) {
-					evs = append(evs, Ev{"ev": "harness", "what": "server did not process the read"})
-					return evs
+					// the server did not hand this read to its assembler (3 s; its read timeout is 2 ms): an
+					// observation about the server, not driver trouble.  The driver goes on without that
+					// synchronisation point: later segments are followed by a short fixed wait instead.
+					unsynced = true
+					break waitTap
 				}
 			}
+		}
+		if !gotTap && !gone {
+			time.Sleep(20 * time.Millisecond)
+			e["stuck"] = true
+			rmu.Lock()
+			e["out"] = ints(got[seen:])
+			seen = len(got)
+			e["close"] = eof
+			rmu.Unlock()
+			evs = append(evs, e)
+			continue
 		}
 		if gone {
 			rmu.Lock()
@@ -604,6 +642,7 @@ func driveStream(w *writer) error {
 		if err := json.Unmarshal(line, c); err != nil {
 			return err
 		}
+		c.raw = append([]byte(nil), line...)
 		cases = append(cases, c)
 		return nil
 	})
@@ -617,6 +656,7 @@ func driveStream(w *writer) error {
 		go func() {
 			defer wg.Done()
 			for c := range ch {
+				id := watchStart(c.raw)
 				if c.Op == "conns" {
 					w.emitAll(runStreamConns(c))
 				} else if c.E2E {
@@ -624,6 +664,7 @@ func driveStream(w *writer) error {
 				} else {
 					w.emitAll(runStreamDirect(c))
 				}
+				watchEnd(id)
 			}
 		}()
 	}
